@@ -45,7 +45,7 @@ type c08Case struct {
 var c08Ops = []string{"getstatus", "getrules", "addrule", "deleterule", "deleterules", "set-pid", "set-ratelimit", "set-backloglimit", "set-enabled", "set-immutable", "set-failure", "set-backlogwait"}
 var c08Errnos = []int{0, int(syscall.EPERM), int(syscall.ENOENT), int(syscall.EEXIST), int(syscall.EINVAL), int(syscall.ENOMEM), int(syscall.EBUSY), 4095}
 var c08EventTypes = []uint16{1300, 1305, 1006, 1327, 1005, 1100, 1329, 1112, 1400, 1320, 1807, 2404, 1199, 1299}
-var c08Advs = []string{"foreign-stale", "foreign-future", "foreign-random", "wrong-type-ack", "done-as-ack", "short-ack", "ends-early", "wrong-type-data", "foreign-data"}
+var c08Advs = []string{"data-before-ack", "foreign-stale", "foreign-future", "foreign-random", "wrong-type-ack", "done-as-ack", "short-ack", "ends-early", "wrong-type-data", "foreign-data"}
 
 func burstSteps(id int) []simkernel.Step {
 	var out []simkernel.Step
@@ -186,6 +186,19 @@ func c08Exec(k *c08Case) *c08Outcome {
 				ack = ack[:16+r.Intn(4)]
 			}
 		}
+		if first && k.Adv == "data-before-ack" && (m.Type == uapi.MsgGet || m.Type == uapi.MsgListRules) {
+			// the data message overtakes the acknowledgement: whatever the ACK says afterwards, a call that has
+			// not seen its ACK must not report success
+			if m.Type == uapi.MsgGet {
+				st = append(st, wrap(simkernel.Dgram(uapi.MsgGet, 0, m.Seq, m.Pid, out.Planned.Status))...)
+			} else {
+				for _, rl := range rules {
+					st = append(st, wrap(simkernel.Dgram(uapi.MsgListRules, uapi.NlmFMulti, m.Seq, m.Pid, rl))...)
+				}
+				st = append(st, wrap(simkernel.Dgram(uapi.NlmsgDone, uapi.NlmFMulti, m.Seq, m.Pid, []byte{0, 0, 0, 0}))...)
+			}
+			return append(st, wrap(ack)...)
+		}
 		st = append(st, wrap(ack)...)
 		if errno != 0 {
 			return st
@@ -264,6 +277,8 @@ func c08Exec(k *c08Case) *c08Outcome {
 	// does the adversarial variant actually apply to this op?
 	advApplies := k.Adv != ""
 	switch k.Adv {
+	case "data-before-ack":
+		advApplies = k.Op == "getstatus" || k.Op == "getrules" || k.Op == "deleterules"
 	case "ends-early", "wrong-type-data", "foreign-data":
 		advApplies = (k.Op == "getstatus") || ((k.Op == "getrules" || k.Op == "deleterules") && (k.Adv == "ends-early" || nr > 0))
 		if k.Errno != 0 && k.ErrAt == 0 {
